@@ -102,3 +102,37 @@ func VerifC20_Churn() {
 	vpCheckStore(s, ref)
 	vpReach("end")
 }
+
+// VerifC20_MixedSizes: churn over a fixed set of two keys whose entries have very different sizes (a small one and
+// one that takes most of a table), so that tables are sealed while mostly empty: any sequence of overwrites of either
+// key, compaction run to completion after every write. The number of tables stays within a constant - a sealed
+// table whose entries have all been superseded must be reclaimed even though its garbage is a small fraction of its
+// allocation.
+func VerifC20_MixedSizes() {
+	rounds := vpBound("rounds")
+	const size = 100
+	vpIdleNow = vpChoose("idle", 2) == 1
+	s := vpMkStore(size)
+	ref := make([]vpRef, 2)
+	vlens := [2]int{1, 40} // entries of 31 and 70 bytes: they do not share a table
+	for i := 0; i < rounds; i++ {
+		k := vpChoose("key", 2)
+		e := vpMkEntry(k, vlens[k])
+		var err error
+		if vpChoose("raw", 2) == 1 {
+			err = s.PutRaw(vpHKey(k), e.Encode())
+		} else {
+			err = s.Put(vpHKey(k), e)
+		}
+		vpAssert(err == nil, "churn-put-succeeds")
+		if err == nil {
+			ref[k] = vpRef{present: true, val: vpCopyBytes(e.Value()), ttl: e.TTL(), ts: e.Timestamp()}
+		}
+		vpCompact(s, 12)
+		st := s.Stats()
+		vpAssert(st.NumTables <= 4, "table-count-bounded")
+		vpAssert(st.Inuse <= 31+70, "inuse-is-live-data")
+	}
+	vpCheckStore(s, ref)
+	vpReach("end")
+}
